@@ -140,6 +140,35 @@ def run(R):
             for name in ('unnamed', 'named'):
                 if hasattr(variants[name][0], '_source_code'):
                     R.counterexample('variants', 'source-without-include_source', case, 'no _source_code attribute', 'present')
+        # entry points other than the module-level parse: rules, classes, and the entry point of a parameterised class
+        # (C.parse(args) returns a parser), with and without a header
+        ENTRY_DESC = 'start = Pair(`1`, `2`) | W\nW = /[a-z]+/\nclass K { w: W }\nclass Pair(m, n) {\n    first: "x"{m}\n    second: "y"{n}\n}\n'
+
+        def entry_outcomes(g):
+            outs = []
+            for t in ('xyy', 'xy', 'ab', '', 'xyyq'):
+                for label, f in (('parse', lambda: g.parse(t)), ('W', lambda: g.W.parse(t)), ('K', lambda: g.K.parse(t)),
+                                 ('Pair(1,2)', lambda: g.Pair.parse(1, 2)(t)), ('Pair(1,2) pos fullparse', lambda: g.Pair.parse(1, 2)(t, 0, False))):
+                    try:
+                        outs.append((label, t, 'return ' + canon(f())))
+                    except g.PartialParseError as e:
+                        outs.append((label, t, 'partial at %r' % (tuple(e.last_position),)))
+                    except g.ParseError as e:
+                        outs.append((label, t, 'error at %r' % (tuple(e.position),)))
+                    except Exception as e:      # noqa
+                        outs.append((label, t, 'exception ' + type(e).__name__))
+            return outs
+        R.count('entry-points', 'named-vs-unnamed', nontrivial=True)
+        try:
+            eo = {name: entry_outcomes(Grammar(head + ENTRY_DESC, **kw)) for name, head, kw in
+                  (('unnamed', '', {}), ('named', 'grammar c11entry\n', {}), ('named+source', 'grammar c11entrys\n', {'include_source': True}))}
+            for name in ('named', 'named+source'):
+                diff = [(a, b) for a, b in zip(eo['unnamed'], eo[name]) if a != b]
+                if diff:
+                    R.counterexample('entry-points', 'entry-point-behaves-differently:' + name, {'grammar': ENTRY_DESC, 'entry': diff[0][0][0], 'text': diff[0][0][1]},
+                                     diff[0][0][2], diff[0][1][2])
+        except Exception as e:                  # noqa
+            R.counterexample('entry-points', 'entry-point-grammar-rejected', {'grammar': ENTRY_DESC}, 'a grammar module', repr(e)[:200])
         runner = os.path.join(tmp, 'runner.py')
         open(runner, 'w').write(RUNNER)
         procs = []
